@@ -543,6 +543,21 @@ def finish(prop, level, tier, seed, t0, cases, results, rule, assumptions, alpha
         cov["alphabet"] = alphabet
     if extra_cov:
         cov.update(extra_cov)
+    # how each case was surrounded (see _run_one): environment snapshot compared around every case; ambient sweeps; logging half
+    try:
+        from . import ambient
+
+        d = ambient.describe()
+        cov["case_environment"] = {
+            "environment_snapshot_compared_around_every_case": sorted(env_snapshot()),
+            "cases_preceded_by_valid_sweep_of_other_public_functions": sum(1 for r in results if (r.get("extra") or {}).get("ambient_sweep") == "valid"),
+            "cases_preceded_by_junk_argument_sweep": sum(1 for r in results if (r.get("extra") or {}).get("ambient_sweep") == "junk"),
+            "bystander_functions": len(d["bystander_functions"]), "calls_per_valid_sweep": d["bystander_calls_per_valid_sweep"],
+            "functions_not_synthesised": d["not_synthesised"],
+            "logging": "cases with an odd number of 1-bits in their index run with xfab's loggers at DEBUG (sink), the others with logging disabled; flipped in the second schedule",
+        }
+    except Exception:  # noqa: BLE001
+        pass
     ev = {
         "property_id": prop,
         "tier": tier,
